@@ -587,6 +587,7 @@ class BaseConnector:
         finally:
             self._conns.clear()
             self._acquired.clear()
+            self._acquired_per_host.clear()
             for keyed_waiters in self._waiters.values():
                 for keyed_waiter in keyed_waiters:
                     keyed_waiter.cancel()
@@ -656,6 +657,8 @@ class BaseConnector:
         self, req: ClientRequest, traces: list["Trace"], timeout: "ClientTimeout"
     ) -> Connection:
         """Get from pool or create new connection."""
+        if self._closed:
+            raise ClientConnectionError("Connector is closed.")
         key = req.connection_key
         if (
             key in self._conns
@@ -765,6 +768,9 @@ class BaseConnector:
                 if not self._waiters.get(key, True):
                     del self._waiters[key]
 
+            if self._closed:
+                # close() ran after we were woken: nobody would wake us again.
+                raise ClientConnectionError("Connector is closed.")
             if self._available_connections(key) > 0:
                 break
             attempts += 1
